@@ -255,13 +255,13 @@ impl<'a> G<'a> {
         let r = self.rng.below(100);
         let (loc, key, pay, len, delay, salt);
         if !mine.is_empty() && r < 22 {
-            // identical resubmission
+            // identical resubmission - or, one time in three, the same blob with ONLY the delay changed
             let s = self.rng.pick(&mine).clone();
             loc = s.1;
             key = s.2;
             pay = s.3;
             len = s.4;
-            delay = s.5;
+            delay = if self.rng.chance(1, 3) { s.5.wrapping_add(1 + self.rng.below(1000) as u32) } else { s.5 };
             salt = 0;
         } else {
             loc = if !mine.is_empty() && r < 40 { self.rng.pick(&mine).1 } else { *self.rng.pick(&self.locs.clone()) };
